@@ -26,7 +26,7 @@ func runC19(cfg *vh.Config) error {
 	}
 	distinct := vh.Distinct{}
 	caseNo := 0
-	inputs := fmtInputs(cfg, "c19", cfg.Scale(900, 25000), cfg.Scale(500, 12000), cfg.Scale(300, 8000))
+	inputs := fmtInputs(cfg, "c19", cfg.Scale(750, 25000), cfg.Scale(400, 12000), cfg.Scale(250, 8000))
 	for _, in := range inputs {
 		src := in.src
 		inS := fmt.Sprintf("%q", src)
